@@ -246,11 +246,13 @@ def random_params(rng, **fixed):
         rho=float(10.0 ** rng.integers(-3, 2)),
         display_interval=1e9,
     )
-    if rng.uniform() < 0.25:
-        kw["linear_solver_type"] = LinearSolverType.GMRES
-    if rng.uniform() < 0.15 and kw["step_solver_type"] == StepSolverType.Symmetric:
-        kw["linear_solver_type"] = LinearSolverType.MINRES
+    u1, u2 = rng.uniform(), rng.uniform()
     kw.update(fixed)
+    if "linear_solver_type" not in fixed:
+        if u1 < 0.25:
+            kw["linear_solver_type"] = LinearSolverType.GMRES
+        if u2 < 0.15 and kw["step_solver_type"] == StepSolverType.Symmetric:
+            kw["linear_solver_type"] = LinearSolverType.MINRES     # MINRES is only supported with the symmetric step solver
     return kw
 
 
